@@ -49,7 +49,7 @@ Completions(s) ==
                                                           \cup { Bin("pow", s.l, c) : c \in ConstExps } \cup { Neg(s.l), s.l } }
     [] s.cls = "d2l" -> { [e1 |-> Bin(op, d, s.l), e2 |-> NoExpr] : op \in BinOps, d \in D1Small }
     [] s.cls = "d2r" -> { [e1 |-> Bin(op, s.l, d), e2 |-> NoExpr] : op \in BinOps, d \in D1Small }
-    [] s.cls = "call" -> { [e1 |-> CallF(f, <<s.l>>), e2 |-> NoExpr] : f \in {"f_len", "f_sq", "f_inf", "f_where", "f_sqrt"} }
+    [] s.cls = "call" -> { [e1 |-> CallF(f, <<s.l>>), e2 |-> NoExpr] : f \in {"f_len", "f_sq", "f_inf", "f_where", "f_sqrt", "f_shp", "f_shw"} }
                          \cup { [e1 |-> CallF(f, <<s.l, y>>), e2 |-> NoExpr] : y \in Leaves, f \in {"f_sum", "f_quot", "f_mix"} }
                          \cup { [e1 |-> CallF(f, <<d>>), e2 |-> NoExpr] : f \in {"f_len", "f_sq", "f_inf", "f_sqrt"},
                                                                        d \in { Bin(op, s.l, y) : op \in {"mul", "div"}, y \in LeavesSmall } }
@@ -76,10 +76,11 @@ T1 == TypeOf(EmptyEnv, cs.e1)
 Env2 == [x \in {"v_a"} |-> T1]
 T2 == IF cs.e2.op = "none" THEN Poly ELSE IF IsErr(T1) THEN T1 ELSE TypeOf(Env2, cs.e2)
 
-ASSUME PrintT(<<"META", ToJson([setup |-> [i \in 1..9 |->
+ASSUME PrintT(<<"META", ToJson([setup |-> [i \in 1..11 |->
             CASE i = 1 -> StructText [] i = 2 -> FnDef("f_len").text [] i = 3 -> FnDef("f_sq").text [] i = 4 -> FnDef("f_sum").text
               [] i = 5 -> FnDef("f_inf").text [] i = 6 -> FnDef("f_where").text [] i = 7 -> FnDef("f_sqrt").text
-              [] i = 8 -> FnDef("f_quot").text [] i = 9 -> FnDef("f_mix").text]])>>)
+              [] i = 8 -> FnDef("f_quot").text [] i = 9 -> FnDef("f_mix").text
+              [] i = 10 -> FnDef("f_shp").text [] i = 11 -> FnDef("f_shw").text]])>>)
 
 \* MC sanity of the rule set itself: typing is total and well-formed
 TypeTotal == stage = 2 => T1.k \in {"dim", "poly", "bool", "list", "polylist", "struct", "err"}
